@@ -258,7 +258,11 @@ func c14Run(c *Ctx, i int, r *gen.R) {
 				}
 				return textW.Render()
 			}},
-			rd{"auto.Render " + name, "text:" + name, func() (string, error) { return auto.Render(t, name) }})
+			rd{"auto.Render " + name, "text:" + name, func() (string, error) { return auto.Render(t, name) }},
+			// valid styles which auto only resolves after trying other readings of the string first: a render that
+			// succeeds leaves nothing behind on the table, whatever it took to find the decoration
+			rd{"auto.Render " + name + ".compact (trailing section)", "text:" + name, func() (string, error) { return auto.Render(t, name+".compact") }},
+			rd{"auto.Render TextTable." + name + ".x.y", "text:" + name, func() (string, error) { return auto.Render(t, "TextTable."+name+".x.y") }})
 	}
 	// every (owner, key) over a fixed key set is read before the first render - whether set or not - and must read the same afterwards
 	type probe struct {
